@@ -315,8 +315,9 @@ def run(c):
         "hand-written store machine coq/theories/Store/Model.v (boltz CRUD, constraints, delete cascade, link cleanup, tx glue)",
         "bbolt as a transactional key/bucket store whose rollback restores the previous content",
         "extraction (ExtrOcamlBasic only) + extraction/store_driver.ml + drv_common.ml",
-        "Go harness store.go / store_gen.go / store_c06.go / store_c06_child.go / store_c06_links.go / store_c06_names.go (schema interpreter, history generator, fact projection - "
-        "string sets inside a child-store bucket are projected to the same S: facts as the model's root-level sets -, ValidateDeleted call) "
+        "Go harness store.go / store_gen.go / store_c06.go / store_c06_child.go / store_c06_links.go / store_c06_names.go / store_c06_pfx.go (schema interpreter, history generator, fact projection - "
+        "string sets inside a child-store bucket are projected to the same S: facts as the model's root-level sets, fields declared with a path prefix are read from their nested "
+        "bucket and projected as ordinary field facts -, ValidateDeleted call) "
         "and lib/storefam.py / checks/c06.py",
         "ref-counted link collections are NOT in the Coq machine: covered by the harness stream + oracle only",
     ]
@@ -465,6 +466,13 @@ def run(c):
         "referrers of SEVERAL equally named edges on one target X at once (1-3 neighbouring referrers per referrer store, all edges or a subset), release the restrict referrers "
         "edge by edge (so that the referrers of exactly one store may be left: the delete must be refused) and delete X in the transaction that wrote them or later, re-create "
         "the id, reference it from every store again, delete again; the others are child-level subject histories, bursts over one edge and the tail of the main stream on these wirings. "
+        "PATH-PREFIX histories (3n/10 more in the quick, n/10 in the thorough tier; wirings C06pa / C06pb / C06pc, generated last): foreign-key fields live in NESTED buckets of the "
+        "entity (symbols declared with a one- or two-element path prefix, AddFkSymbolWithKey(.., prefix...); the entity strategy persists the value at <entity>/<prefix...>/<key>, "
+        "for a child store inside the child store's bucket) and carry fk constraints (cascade and restrict, nullable and not, a self reference, a cascade chain dept -> emp -> proj "
+        "over two nested fields), a restrict fk index, a cascading fk index and a nullable unique index, next to flat fields of the same kinds on the same target; C06pb / C06pc are "
+        "the same-name schemas with one field of every group nested (at parent level, inside a child store, under equal bucket names at both levels). Generators rotate: bursts over "
+        "one edge, same-name groups, child-level subjects, tail of the main stream (incl. never-existed runs). The nested values are projected as ordinary field facts, so the "
+        "no-trace oracle sees a referrer that keeps the deleted id in a nested fk field. "
         "Non-trivial: every history has at least 5 transactions; distinct by case text.")
     ks = sorted(set((0, len(cases) // 2, max(0, len(cases) - 1))))
     c.cov["samples"] = [dict(case=cases[k][:1500], impl=impl[k][:1500], model=modl[k][:1500]) for k in ks if k < len(cases)]
@@ -473,7 +481,8 @@ def run(c):
         for key in ("burst_histories", "burst_delete_tx_committed", "burst_deleted_entities", "child_histories", "child_delete_tx_committed",
                     "child_deleted_entities", "rc_child_histories", "linkseq_histories", "linkseq_bool_observations", "linkseq_delete_tx_committed",
                     "linkseq_deleted_entities", "rc_seq_histories", "samename_histories", "samename_group_histories", "samename_delete_tx_committed",
-                    "samename_deleted_entities", "samename_delete_with_restrict_referrers_left"):
+                    "samename_deleted_entities", "samename_delete_with_restrict_referrers_left", "pfx_histories", "pfx_deleted_entities",
+                    "pfx_nested_field_facts", "pfx_burst_histories", "pfx_group_histories", "pfx_child_subject_histories"):
             c.cov[key] = c.cov["input_distribution"].get(key, 0)
     except Exception:
         pass
@@ -490,7 +499,9 @@ def main(argv):
     c = vlib.Check(PID, argv)
     c.assumptions = ["bbolt rollback restores the previous content (trusted; observed by the full traversal after every transaction)",
                      "schemas satisfy wf_notrace_b (checked by computation for the harness wirings idx, fkc, casc, cl and the child-level "
-                     "wirings C06cp, C06cx, C06cm and the same-name wirings C06sa, C06sb, C06sc in Examples/C06Wirings.v)"]
+                     "wirings C06cp, C06cx, C06cm and the same-name wirings C06sa, C06sb, C06sc and the path-prefix wirings C06pa, C06pb, C06pc in Examples/C06Wirings.v)",
+                     "where a field is stored inside the entity bucket (path prefix of its symbol) is not part of the model: the harness projects nested fields as "
+                     "ordinary field facts (store_c06_pfx.go) and treats every other nested bucket as JUNK"]
     files = [f for f in FILES if os.path.exists(os.path.join(vlib.COQ, f))]
     proof_ok = c.proof_step(files) and len(files) == len(FILES)
     run(c)
